@@ -1,7 +1,7 @@
 SPECIFICATION Spec
 CONSTANTS
   Templates = {"mac_named", "unnamed", "win_ser", "win_snr", "vidpid_only", "foreign", "foreign_mentions", "bluetooth"}
-  Names = {"Lab", "LabX2", "East Wing"}
+  Names = {"Lab", "LabX2", "East Wing", "Q7"}
   MaxPorts = 2
 INVARIANT FirstIsListed
 INVARIANT ByDescWins
